@@ -329,6 +329,9 @@ func c15Keys(t *testing.T) []c15Key {
 	ks = append(ks, mk("rsa", 2048, r2, err))
 	r1, err := rsa.GenerateKey(rand.Reader, 1024)
 	ks = append(ks, mk("rsa", 1024, r1, err))
+	// a modulus whose BIT length is just under the minimum while its BYTE length is not (2047 bits = 256 bytes)
+	r3, err := rsa.GenerateKey(rand.Reader, 2047)
+	ks = append(ks, mk("rsa", 2047, r3, err))
 	return ks
 }
 
